@@ -7,6 +7,7 @@ mean of shape `bs × n × t`, any rank of `bs`).
 -/
 import GPVerif.Gen.MTIndex
 import GPVerif.Bridge.MTBatch
+import GPVerif.Bridge.MTCtor
 import GPVerif.Props.C11
 
 set_option linter.unusedSimpArgs false
@@ -258,11 +259,6 @@ theorem getitemRCB_fullSlices (inter : Bool) (N nr nc : Int) (B : List Idx) :
     getitemRCB inter N nr nc B (.slice PySlice.full) (.slice PySlice.full) = some (.mt inter, ⟨B, .full⟩) := by
   simp [getitemRCB, Idx.isInt, Idx.isSlice, Idx.isFull, branchB_fullSlices]
 
-theorem replicate_add_two {α : Type} (a : Nat) (x : α) : List.replicate (a + 2) x = List.replicate a x ++ [x, x] := by
-  induction a with
-  | zero => rfl
-  | succ k ih => rw [show k + 1 + 2 = (k + 2) + 1 by omega, List.replicate_succ, ih]; rfl
-
 /-- **batch-only index** (at most as many int / slice components as there are batch dimensions, no ellipsis): the
 generated batch-only branch `cov[idx]` yields the covariance of `mean[idx]`, for every batch rank. -/
 theorem getitemDispatch_batchonly_correct (inter : Bool) (bs : List Nat) (n t : Nat) (idx : List Idx)
@@ -356,6 +352,123 @@ theorem getitemB_batch_advanced_diag_known :
       = some [[[true, false, false], [false, true, false], [false, false, true]]] := by
   decide +kernel
 
+/-! ## constructors on batches of any rank: the regenerated permutation / stacking / block dimensions -/
+
+/-- generated `from_batch_mvn` plan: a valid `task_dim` (negative values count from the end) names batch dimension `p`;
+the mean is permuted by `range(0, p), range(p + 1, nd), p` and `p` is the block dimension of the covariance -/
+theorem gen_from_batch_mvn_plan (nb : Nat) (task_dim p : Int) (hw : wrap nb task_dim = some p) :
+    fromBatchMvnPlan nb ((nb : Int) + 1) task_dim
+      = some (pyRange 0 p ++ pyRange (p + 1) ((nb : Int) + 1) ++ [p], p) := by
+  have hb := wrap_bounds hw
+  have hn := wrap_eq_norm' hw
+  unfold fromBatchMvnPlan
+  have e : (if task_dim ≥ 0 then task_dim else (nb : Int) + task_dim) = p := by
+    rw [← hn]; split <;> split <;> omega
+  simp only [e]
+  rw [if_neg (by omega)]
+
+/-- **gen_from_batch_mvn_entry** — for every number of batch dimensions, every valid `task_dim` (either sign) and every
+remaining batch element `β`: with the regenerated permutation the mean entry `(β, i, a)` of the result is the entry of
+batch member `a` along the stated task dimension (`β` with `a` inserted at `p`), and with the regenerated block
+dimension, block operator and layout flag the covariance between `(i, a)` and `(j, b)` of batch element `β` is that
+member's `K[i, j]` when `a = b` and `0` otherwise. -/
+theorem gen_from_batch_mvn_entry {α : Type} [OfNat α 0] (nb : Nat) (task_dim p : Int) (hw : wrap nb task_dim = some p)
+    (K : List Int → Int → Int → α) (β : List Int) (hβ : β.length + 1 = nb) {n t i a j b : Int}
+    (hi0 : 0 ≤ i) (hi1 : i < n) (ha0 : 0 ≤ a) (ha1 : a < t) (hj0 : 0 ≤ j) (hj1 : j < n) (hb0 : 0 ≤ b) (hb1 : b < t) :
+    ∃ perm bd, fromBatchMvnPlan nb ((nb : Int) + 1) task_dim = some (perm, bd) ∧
+      permutedIdx perm (insertAt p.toNat a β ++ [i]) = β ++ [i, a] ∧
+      blockEntryB fromBatchMvn.1 bd.toNat n t K β (flat fromBatchMvn.2 n t i a) (flat fromBatchMvn.2 n t j b)
+        = (if a = b then K (insertAt p.toNat a β) i j else 0) := by
+  have hb := wrap_bounds hw
+  refine ⟨_, _, gen_from_batch_mvn_plan nb task_dim p hw, ?_, ?_⟩
+  · have hk : (β.take p.toNat).length = p.toNat := by simp; omega
+    have hp : ((β.take p.toNat).length : Int) = p := by rw [hk]; omega
+    have hl : ((β.take p.toNat).length : Int) + ((β.drop p.toNat).length : Nat) + 2 = (nb : Int) + 1 := by
+      simp only [List.length_take, List.length_drop]; omega
+    have := moveLast_permutedIdx (β.take p.toNat) (β.drop p.toNat) a i
+    rw [hl, hp] at this
+    simpa [insertAt, List.append_assoc] using this
+  · simp [fromBatchMvn, blockEntryB, flat, flat_div ha0 ha1, flat_mod ha0 ha1, flat_div hb0 hb1, flat_mod hb0 hb1]
+
+/-- **gen_from_independent_entry** — with the regenerated stacking / concatenation / block dimensions of
+`from_independent_mvns`, for every batch element `β` (any rank): mean entry `(β, i, a)` is entry `(β, i)` of task `a`'s
+mean, block `a` of the concatenated covariances is task `a`'s covariance, and the covariance between `(i, a)` and
+`(j, b)` is `K_a[β][i, j]` when `a = b` and `0` otherwise. -/
+theorem gen_from_independent_entry {α : Type} [OfNat α 0] (K : List Int → Int → Int → α) (β : List Int)
+    {n t i a j b : Int}
+    (hi0 : 0 ≤ i) (hi1 : i < n) (ha0 : 0 ≤ a) (ha1 : a < t) (hj0 : 0 ≤ j) (hj1 : j < n) (hb0 : 0 ≤ b) (hb1 : b < t) :
+    stackSrc (β.length + 2) fromIndependentPlan.1 (β ++ [i, a]) = (a, β ++ [i]) ∧
+    catUnsqueezeSrc (β.length + 3) fromIndependentPlan.2.1 fromIndependentPlan.2.2.1 (a :: β ++ [i, j])
+      = some (a, β ++ [i, j]) ∧
+    blockEntryB fromIndependentMvns.1 fromIndependentPlan.2.2.2.toNat n t K β
+        (flat fromIndependentMvns.2 n t i a) (flat fromIndependentMvns.2 n t j b)
+      = (if a = b then K (a :: β) i j else 0) := by
+  refine ⟨?_, ?_, ?_⟩
+  · have h : normDim (β.length + 2) (-1) = β.length + 1 := by simp [normDim]; omega
+    simp only [fromIndependentPlan, stackSrc, h]
+    have e : β ++ [i, a] = (β ++ [i]) ++ [a] := by simp
+    rw [e]
+    refine Prod.ext ?_ ?_
+    · simp [List.getD_eq_getElem?_getD]
+    · have : (β ++ [i]).length = β.length + 1 := by simp
+      rw [← this, List.eraseIdx_append_of_length_le (Nat.le_refl _)]
+      simp
+  · simp [fromIndependentPlan, catUnsqueezeSrc, stackSrc, normDim]
+  · simp [fromIndependentMvns, fromIndependentPlan, blockEntryB, insertAt, flat, flat_div hi0 hi1, flat_mod hi0 hi1,
+      flat_div hj0 hj1, flat_mod hj0 hj1]
+
+/-- **gen_from_repeated_entry** — `from_repeated_mvn` expands the MVN by a new LEADING dimension of size `num_tasks`
+and hands `task_dim = 0` to `from_batch_mvn`: every task is a copy of the MVN (`K[β][i, j]` within a task, `0` across). -/
+theorem gen_from_repeated_entry {α : Type} [OfNat α 0] (K : List Int → Int → Int → α) (bshape β : List Int)
+    (hβ : β.length = bshape.length) (num_tasks : Int) {n t i a j b : Int}
+    (hi0 : 0 ≤ i) (hi1 : i < n) (ha0 : 0 ≤ a) (ha1 : a < t) (hj0 : 0 ≤ j) (hj1 : j < n) (hb0 : 0 ≤ b) (hb1 : b < t) :
+    fromRepeatedShape num_tasks bshape = num_tasks :: bshape ∧
+    ∃ perm bd, fromBatchMvnPlan ((bshape.length + 1 : Nat) : Int) (((bshape.length + 1 : Nat) : Int) + 1) fromRepeatedTaskDim
+        = some (perm, bd) ∧
+      permutedIdx perm (a :: β ++ [i]) = β ++ [i, a] ∧
+      blockEntryB fromRepeatedMvn.1 bd.toNat n t
+          (fun idx => K (expandSrc bshape.length (fromRepeatedShape num_tasks bshape) idx)) β
+          (flat fromRepeatedMvn.2 n t i a) (flat fromRepeatedMvn.2 n t j b)
+        = (if a = b then K β i j else 0) := by
+  refine ⟨rfl, ?_⟩
+  have hw : wrap ((bshape.length + 1 : Nat) : Int) fromRepeatedTaskDim = some 0 := by
+    simp [fromRepeatedTaskDim, wrap]
+  obtain ⟨perm, bd, hplan, hperm, hcov⟩ := gen_from_batch_mvn_entry (bshape.length + 1) fromRepeatedTaskDim 0 hw
+    (fun idx => K (expandSrc bshape.length (fromRepeatedShape num_tasks bshape) idx)) β (by omega)
+    hi0 hi1 ha0 ha1 hj0 hj1 hb0 hb1
+  refine ⟨perm, bd, hplan, by simpa [insertAt] using hperm, ?_⟩
+  have hB : fromRepeatedMvn = fromBatchMvn := rfl
+  rw [hB, hcov]
+  simp [insertAt, expandSrc, fromRepeatedShape]
+
+/-! ## `to_data_independent_dist` and the base samples of `rsample` -/
+
+/-- **gen_data_independent_entry** — entry `(i, x, y)` of the blocks `to_data_independent_dist` selects: with the
+regenerated index grids and the regenerated `unsqueeze` axes, row and column are the flat positions of `(i, y)` and
+`(i, x)`, i.e. the block of point `i` (transposed: immaterial for a symmetric covariance), for all `n`, `t`, both
+layouts. -/
+theorem gen_data_independent_entry (inter : Bool) (n t : Nat) (hn : 0 < n) (ht : 0 < t) (i x y : Nat)
+    (hi : i < n) (hx : x < t) (hy : y < t) :
+    (dataIndices inter n t).getD i 0 + (taskIndices inter n t).getD (diRowTask x y).toNat 0 = flat inter n t i y ∧
+    (dataIndices inter n t).getD i 0 + (taskIndices inter n t).getD (diColTask x y).toNat 0 = flat inter n t i x := by
+  obtain ⟨hd, htk, hadd⟩ := data_independent_blocks inter n t hn ht
+  have e1 : (dataIndices inter n t).getD i 0 = flat inter n t i 0 := by
+    rw [hd]; simp [List.getD_eq_getElem?_getD, hi]
+  have e2 : ∀ z : Nat, z < t → (taskIndices inter n t).getD z 0 = flat inter n t 0 z := by
+    intro z hz; rw [htk]; simp [List.getD_eq_getElem?_getD, hz]
+  simp only [diRowTask, diColTask, Int.toNat_natCast, e1, e2 y hy, e2 x hx, hadd]
+  exact ⟨trivial, trivial⟩
+
+/-- **gen_base_samples_bijection** — `rsample(base_samples=…)` views the `n × t` base-sample matrix as the flat vector
+the base class consumes: entry `(i, a)` drives flat position `i·t + a` in BOTH layouts — a bijection of
+`[0, n) × [0, t)` onto `[0, n·t)` (`flat_unflat true`), so independent standard-normal base samples stay independent
+standard normal; in the non-interleaved layout position `i·t + a` belongs to the variable `unflat false` of it, not to
+`(i, a)` (observed through the Gram matrix of the sampling map, not a defect). -/
+theorem gen_base_samples_bijection {α : Type} (inter : Bool) {n t i a : Int} (base : Int → Int → α)
+    (ha0 : 0 ≤ a) (ha1 : a < t) :
+    baseSamplesArg inter n t base (flat true n t i a) = base i a := by
+  cases inter <;> simp [baseSamplesArg, reshapeFlat, flat, flat_div ha0 ha1, flat_mod ha0 ha1]
+
 /-! ## non-vacuity -/
 
 -- batch shape (2, 3), n = t = 2, non-interleaved, `d[1, ::2, 0, :]` : hypotheses of the main theorem hold, two blocks
@@ -376,5 +489,11 @@ example : (specGetitemB true [1, 3, 1] 2 2 (.bare (.comp (.int 0)))).isSome = tr
 -- int × int over a kept batch dimension: diagonal across the batch members
 example : specGetitemB true [2] 2 2 (.tuple [BIdx.full, .comp (.int 1), .comp (.int 0)])
     = some (.mvn, ⟨[], [[[some ([0], 2, 2), none], [none, some ([1], 2, 2)]]]⟩) := by decide +kernel
+-- constructors: batch shape (2, 3, 4) with task_dim = -2 names batch dimension 1; the mean permutation and its effect
+example : fromBatchMvnPlan 3 4 (-2) = some ([0, 2, 3, 1], 1) := by decide +kernel
+example : permutedIdx [0, 2, 3, 1] (insertAt 1 7 [5, 6] ++ [9]) = [5, 6] ++ [9, 7] := by decide +kernel
+example : wrap 3 (-2) = some 1 ∧ fromBatchMvnPlan 3 4 3 ≠ none ∧ fromBatchMvnPlan 3 4 4 = none := by decide +kernel
+example : fromRepeatedShape 5 [2, 3] = [5, 2, 3] ∧ fromRepeatedTaskDim = 0 ∧ fromIndependentPlan = (-1, 0, 0, 0) := by decide +kernel
+example : diRowTask 1 2 = 2 ∧ diColTask 1 2 = 1 := by decide +kernel
 
 end C11
